@@ -203,11 +203,18 @@ func (d *DelayInjector) Hook(id int) {
 	if id < 0 || id >= numPoints {
 		return
 	}
-	gid := int64(0)
-	if d.Stats.TrackSigs {
-		gid = Goid()
+	if id == int(tally.VerifCtrBeforeAdd) {
+		// the hottest point (every counter increment): counted, delayed when the
+		// profile says so, but kept out of the interleaving signatures (finding
+		// the goroutine id costs a stack walk)
+		atomic.AddInt64(&d.Stats.hits[id], 1)
+	} else {
+		gid := int64(0)
+		if d.Stats.TrackSigs {
+			gid = Goid()
+		}
+		d.Stats.hit(gid, id)
 	}
-	d.Stats.hit(gid, id)
 	if atomic.LoadInt32(&d.Off) != 0 {
 		return
 	}
